@@ -452,10 +452,14 @@ func (self *Analyzer) functionLiteral(node pAst.FunctionLiteralExpression) ast.A
 		node.Span(),
 		pAst.FN_MODIFIER_NONE,
 	)
+	// the literal has its own return type and its own loops: restore the enclosing context afterwards
+	prevFunction, prevLoopDepth := self.currentModule.CurrentFunction, self.currentModule.LoopDepth
 	self.currentModule.CurrentFunction = &moduleFn
+	self.currentModule.LoopDepth = 0
 
 	// analyze body
 	analyzedBlock := self.block(node.Body, false)
+	self.currentModule.CurrentFunction, self.currentModule.LoopDepth = prevFunction, prevLoopDepth
 
 	// analyze return type
 	if err := self.TypeCheck(analyzedBlock.Type(), fnReturntype, TypeCheckOptions{
